@@ -26,6 +26,16 @@ from .fakenet import sockaddr, LOCAL_UNICAST, LOCAL_MCAST, LOCAL_MCAST4
 from .vloop import TICKS_PER_S
 
 UNIT = TICKS_PER_S >> 10
+ALT_PORT = 6001
+
+
+def peer_sockaddr(r, port=None):
+    """Scripted peer r; peers 11..19 are further endpoints (another port) at the addresses of peers 1..9."""
+    if r > 10:
+        return sockaddr(r - 10, ALT_PORT)
+    return sockaddr(r, port or 5683)
+
+
 SECRET = "s3cr3t-marker"
 
 FIELDS = {
@@ -190,6 +200,7 @@ def run(sched):
     nrem = sched.get("nremotes", 4)
     for n in range(1, nrem + 1):
         addr2r[sockaddr(n)[:2]] = n
+        addr2r[sockaddr(n, ALT_PORT)[:2]] = n + 10   # peer n + 10: another endpoint at peer n's address
 
     def rnum(address):
         return addr2r.get(tuple(address[:2]), 0)
@@ -208,7 +219,8 @@ def run(sched):
         """The request with that token towards that peer.  Should several carry the token (an allocator that hands
         a token out twice), a datagram being transmitted (`fresh`) belongs to the latest one not yet on the wire."""
         cands = [q for q, d in reqs.items()
-                 if d["msg"].token is not None and bytes(d["msg"].token) == bytes(token) and d["r"] == r and d.get("ctx", "") == ctxname]
+                 if d["msg"].token is not None and bytes(d["msg"].token) == bytes(token) and d.get("ctx", "") == ctxname
+                 and (d["r"] == r or (fresh and r == 0 and d.get("mc")))]     # r = 0: sent to a multicast group
         if not cands:
             return 0
         if fresh:
@@ -273,7 +285,7 @@ def run(sched):
             data = bytes.fromhex(data)
         local = {"m": LOCAL_MCAST, "m4": LOCAL_MCAST4}.get(step.get("loc"), LOCAL_UNICAST)
         sock = state["other_sock"] if step.get("ctx") == "other" else state["sock"]
-        w.net.inject(sock, data, sockaddr(step["r"], step.get("port", 5683)), local=local)
+        w.net.inject(sock, data, peer_sockaddr(step["r"], step.get("port")), local=local)
 
     def on_sent(rec):
         r = rnum(rec["to"])
@@ -599,6 +611,14 @@ def run(sched):
                 m = Message(code=Code(step.get("code", 1)), uri_path=step.get("path", ["q%d" % q]), **kw)
                 if step.get("observe") is not None:
                     m.opt.observe = step["observe"]
+                if step.get("mtype"):
+                    # the application fixes the message type itself (deprecated, but honoured by the library)
+                    import warnings
+                    from aiocoap.numbers.types import Type
+
+                    with warnings.catch_warnings():
+                        warnings.simplefilter("ignore")
+                        m.mtype = Type[step["mtype"]]
                 if step.get("payload_len"):
                     m.payload = bytes(range(256)) * (step["payload_len"] // 256) + bytes(range(step["payload_len"] % 256))
                 which = other if step.get("ctx") == "other" else ctx
@@ -617,7 +637,7 @@ def run(sched):
                 except Exception as e:
                     ev("done", q=q, cls=err_class(e), x="sync:" + type(e).__name__)
                     continue
-                reqs[q] = {"msg": m, "req": req, "r": step["r"], "ctx": "other" if step.get("ctx") == "other" else ""}
+                reqs[q] = {"msg": m, "req": req, "r": step["r"], "ctx": "other" if step.get("ctx") == "other" else "", "mc": bool(step.get("mc"))}
 
                 def done_cb(fut, q=q):
                     if fut.cancelled():
